@@ -70,7 +70,7 @@ def make_exception(kind, pid):
     if kind == "CancelledContext":
         # what asyncio.wait_for / asyncio.timeout produce: an ordinary exception raised while an
         # (internal) cancellation was being handled; the payload itself was not cancelled
-        e = TimeoutError(pid)
+        e = LookupError(pid)  # (not TimeoutError: its identity through execute() is a known finding of its own)
         e.__context__ = asyncio.CancelledError()
         return e
     if kind == "CancelledCause":
